@@ -20,16 +20,9 @@ Import ListNotations.
 Definition sub_at (s : state) (ty : N) (x : aid) : Prop := In x (map snd (subscribers s ty)).
 Definition sub_atb (s : state) (ty : N) (x : aid) : bool := existsb (Nat.eqb x) (map snd (subscribers s ty)).
 
-(** context [a] is registered: the registry maps its path to it.  Registration is ActorOf's first effect, the
+(** A context is *registered* when the registry maps its path to it.  Registration is ActorOf's first effect, the
     removal is the atomic instruction [ICleanup] (end of the stop sequence), which unsubscribes in the same breath:
-    "terminated" = not registered any more *)
-Definition registered (s : state) (a : aid) : Prop :=
-  exists x, get s a = Some x /\ alookup (reg s) (a_path x) = Some a.
-Definition registeredb (s : state) (a : aid) : bool :=
-  match get s a with
-  | Some x => match alookup (reg s) (a_path x) with Some b => Nat.eqb a b | None => false end
-  | None => false
-  end.
+    "terminated" = not registered any more. *)
 
 (** every entry of the table other than the guard's (context 0, the receiver of the ActorSystem-level API) names a
     registered context created under the entry's path *)
@@ -143,6 +136,3 @@ Fixpoint upushed (b : aid) (evs : list event) (s : state) : list (tid * envelope
 Definition just_published (s : state) (t : tid) (ty : N) (pl : list N) (rest : list instr) : Prop :=
   subscribers s ty <> [] /\
   pend_of s t = IEnqAny false (map (fun p => RObj (snd p)) (subscribers s ty)) root_ref (MEvent ty pl) :: rest.
-
-(** * schedules for the examples and the search (reuses the driver of Actor/SpecMail.v) *)
-Definition run_all (fuel : nat) (scs : list (list action)) : list event := drive_all fuel (init_with scs).
